@@ -100,8 +100,15 @@ class Run:
             self.stop()
             raise Inconclusive("jet1090 did not connect to the loopback Beast server within 60 s: " + self.stderr()[-400:])
 
-    def send(self, src, frames):
-        self.conns[src].sendall(b"".join(beast(f) for f in frames))
+    def send(self, src, frames, clock_skew=None):
+        """clock_skew: seconds; the Beast MLAT timestamp then carries the time of day plus that skew (a GPS-timed
+        receiver), which jet1090 stores as the reception's gnss_timestamp"""
+        if clock_skew is None:
+            self.conns[src].sendall(b"".join(beast(f) for f in frames))
+            return
+        t = time.time() % 86400 + clock_skew
+        ts48 = (int(t) << 30) | int((t % 1) * 1e9)
+        self.conns[src].sendall(b"".join(beast(f, ts48 & 0xFFFFFFFFFFFF) for f in frames))
 
     def records(self):
         with open(self.out_path, "rb") as f:
@@ -202,7 +209,8 @@ def c10_scenario(rep, binary, workdir, rng, attempt=0):
             k = rng.choice([1, 3, 10])
             step = max(1, len(order) // k)
             for j in range(0, len(order), step):
-                run.send(i, order[j:j + step])
+                # receiver 1 is GPS-timed with a clock one second ahead of the host's
+                run.send(i, order[j:j + step], clock_skew=1.0 if i == 1 else None)
         tr = trailers(4)
         for t in tr:
             time.sleep(max(0.6, 4 * window / 1000.0))
@@ -232,6 +240,7 @@ def c10_scenario(rep, binary, workdir, rng, attempt=0):
     undec = set(f.hex() for f in bad)
     serial_of = {}
     per_frame = {}
+    first_ts = {}
     for k, l in enumerate(lines):
         try:
             o = strict_loads(l)
@@ -247,6 +256,9 @@ def c10_scenario(rep, binary, workdir, rng, attempt=0):
         if fr not in sent:
             rep.violation("C10:system:invented", f"record for frame {fr} that was never sent", replay)
             continue
+        if any(m.get("gnss_timestamp") is not None for m in meta):
+            rep.cls("system:receptions-with-a-receiver-clock")
+        first_ts.setdefault(fr, []).append(o.get("timestamp"))
         if meta and o.get("timestamp") != meta[0].get("system_timestamp"):
             rep.violation("C10:system:wrong-timestamp", f"record of {fr}: timestamp {o.get('timestamp')} is not its first reception's {meta[0].get('system_timestamp')}", replay)
         if len(set(serials)) != len(serials):
@@ -262,6 +274,14 @@ def c10_scenario(rep, binary, workdir, rng, attempt=0):
             rep.violation("C10:system:duplicated", f"reception of {fr} by one receiver appears in two records: serials {serials}", replay)
         if len(known) == nsrc and not set(serials) <= known and fr not in (m.hex() for m in markers):
             rep.violation("C10:system:invented", f"record of {fr} carries a receiver serial {set(serials) - known} that no source has", replay)
+    # two records of one frame must not start within the same window (half of it, to leave room for the few
+    # milliseconds by which two receiver tasks may stamp and hand over their receptions in opposite orders)
+    for fr, tss in first_ts.items():
+        tss = sorted(t for t in tss if isinstance(t, (int, float)))
+        for a, b in zip(tss, tss[1:]):
+            if (b - a) * 1000.0 < window / 2.0:
+                rep.violation("C10:system:window-overlap", f"frame {fr} was emitted twice with first arrivals {a:.3f} and {b:.3f}, {1000 * (b - a):.0f} ms apart, window {window} ms", replay)
+                break
     missing = [f for f in (x.hex() for x in good) if len(per_frame.get(f, [])) < nsrc]
     rep.cls(f"system:receivers:{nsrc}")
     rep.cls("system:groups-merged-from-several-receivers", sum(1 for s in per_frame.values() if len(s) >= 2))
